@@ -247,9 +247,7 @@ fn elaborate_diff_switches(stmts: Vec<Sp<LowerStmt>>, diff_flag_names: &context:
                 // find the max number of switch cases and explicit values
                 let mut switch_props = ds_util::DiffSwitchMeta::new();
                 for arg in args {
-                    if let LowerArg::DiffSwitch(cases) = &arg.value {
-                        switch_props.update(cases);
-                    }
+                    update_diff_switch_meta(&mut switch_props, arg);
                 }
 
                 if switch_props.num_difficulties < 2 {
@@ -286,6 +284,17 @@ fn elaborate_diff_switches(stmts: Vec<Sp<LowerStmt>>, diff_flag_names: &context:
         }
     }
     out
+}
+
+// Switches may be nested inside the cases of other switches; every one of them can change value
+// between difficulties, so all of them must contribute their explicit difficulties.
+fn update_diff_switch_meta(meta: &mut ds_util::DiffSwitchMeta, arg: &Sp<LowerArg>) {
+    if let LowerArg::DiffSwitch(cases) = &arg.value {
+        meta.update(cases);
+        for case in cases.iter().flatten() {
+            update_diff_switch_meta(meta, case);
+        }
+    }
 }
 
 fn select_diff_for_lower_args(args: &[Sp<LowerArg>], difficulty: u32) -> Vec<Sp<LowerArg>> {
